@@ -46,7 +46,7 @@ theorem C05_inv_history (cfg : Cfg) (ops : List Op) (hh : Hist (LibStep cfg) cfg
 theorem C05_read_eq_db (cfg : Cfg) (s : State) (h : Hnd) (o : Inst) (c : Col)
     (hinv : OrmValInv cfg s) (ho : s.objs h = some o) (hl : o.obsolete = false) (hc : c < cfg.ncols o.cls)
     (hcfg : cfg.lazyUpdate o.cls = true → cfg.cacheValues o.cls = true) :
-    ∃ row, s.db o.cls o.id = some row ∧ (opRead cfg s h c).2 = .val (applyUpd row o.pending c) := by
+    ∃ row, s.db o.cls o.id = some row ∧ (opRead cfg s h c).2 = .val (cfg.dec o.cls c (applyUpd row o.pending c)) := by
   have hv := hinv.val h o ho hl
   have hf := hinv.flag h o ho
   obtain ⟨row, hrow⟩ := hv.rowExists
@@ -69,9 +69,9 @@ theorem C05_read_reachable (cfg : Cfg) (s : State) (h : Hnd) (o : Inst) (c : Col
     (hs : LibReach cfg s) (ho : s.objs h = some o) (hl : o.obsolete = false) (hc : c < cfg.ncols o.cls)
     (hcfg : cfg.lazyUpdate o.cls = true → cfg.cacheValues o.cls = true) :
     ∃ row, s.db o.cls o.id = some row ∧
-      (∀ v, plookup c o.pending = some v → (opRead cfg s h c).2 = .val v) ∧
-      (plookup c o.pending = none → (opRead cfg s h c).2 = .val (row c)) ∧
-      (o.dirty = false → (opRead cfg s h c).2 = .val (row c)) := by
+      (∀ v, plookup c o.pending = some v → (opRead cfg s h c).2 = .val (cfg.dec o.cls c v)) ∧
+      (plookup c o.pending = none → (opRead cfg s h c).2 = .val (cfg.dec o.cls c (row c))) ∧
+      (o.dirty = false → (opRead cfg s h c).2 = .val (cfg.dec o.cls c (row c))) := by
   have hinv := C05_inv_reachable cfg s hs
   obtain ⟨row, hrow, hr⟩ := C05_read_eq_db cfg s h o c hinv ho hl hc hcfg
   refine ⟨row, hrow, ?_, ?_, ?_⟩
@@ -95,9 +95,9 @@ theorem C05_oob_then_sync (cfg : Cfg) (s : State) (h : Hnd) (o : Inst) (ho : s.o
         o'.pending = [] ∧ o'.expired = false ∧ ValOK cfg (opSync cfg s h false).1.db o' ∧
         ∀ c, c < cfg.ncols o.cls →
           (cfg.cacheValues o.cls = true →
-            opRead cfg (opSync cfg s h false).1 h c = ((opSync cfg s h false).1, .val (row' c))) ∧
+            opRead cfg (opSync cfg s h false).1 h c = ((opSync cfg s h false).1, .val (cfg.dec o.cls c (row' c)))) ∧
           (cfg.cacheValues o.cls = false → o.obsolete = false →
-            (opRead cfg (opSync cfg s h false).1 h c).2 = .val (row' c))) := by
+            (opRead cfg (opSync cfg s h false).1 h c).2 = .val (cfg.dec o.cls c (row' c)))) := by
   -- the state in which the reload half of sync() runs
   have key : ∃ s1 o1, opSync cfg s h false = opReload cfg s1 h ∧ s1.objs h = some o1 ∧ o1.pending = [] ∧
       o1.cls = o.cls ∧ o1.id = o.id ∧ o1.obsolete = o.obsolete ∧
@@ -135,15 +135,15 @@ theorem C05_oob_then_sync (cfg : Cfg) (s : State) (h : Hnd) (o : Inst) (ho : s.o
     have hne : s.db o.cls o.id ≠ none := by intro hn; rw [hn] at hsome; cases hsome
     refine ⟨by simp [hne], by simp [hsome], ?_⟩
     intro _
-    refine ⟨{ o1 with cached := loadRow (cfg.ncols o.cls) row, expired := false }, row, by simp [setObj, hc1, hi1],
+    refine ⟨{ o1 with cached := loadRow (cfg.dec o.cls) (cfg.ncols o.cls) row, expired := false }, row, by simp [setObj, hc1, hi1],
       by simp [setObj, logStmt, hrow], hc1, hi1, hp1, rfl, ?_, ?_⟩
     · constructor
       · exact ⟨row, by simp [setObj, logStmt, hc1, hi1, hrow]⟩
       · intro _ c v row' hr hcv
         simp only [setObj, logStmt, hc1, hi1, hrow, Option.some.injEq] at hr
         subst hr
-        simp only [hp1, applyUpd_nil]
-        exact loadRow_ok _ _ _ _ hcv
+        simp only [hp1, applyUpd_nil, hc1]
+        exact loadRow_ok _ _ _ _ _ hcv
     · intro c hc
       constructor
       · intro hcv
@@ -162,13 +162,13 @@ theorem C05_oob_then_expire (cfg : Cfg) (s : State) (h : Hnd) (o : Inst) (c : Co
       (opRead cfg (opExpire s h).1 h c).2 =
         match s.db o.cls o.id with
         | none => .notFound
-        | some row => .val (row c)) ∧
+        | some row => .val (cfg.dec o.cls c (row c))) ∧
     (cfg.cacheValues o.cls = false →
       (opRead cfg (opExpire s h).1 h c).2 =
         if o.obsolete then .assertion else
         match s.db o.cls o.id with
         | none => .assertion
-        | some row => .val (row c)) := by
+        | some row => .val (cfg.dec o.cls c (row c))) := by
   refine ⟨by simp [opExpire, ho, setObj], by simp [opExpire, ho], ?_, ?_⟩
   · intro hcv
     simp only [opExpire, ho, opRead, setObj, expireInst, if_true, Nat.not_le.mpr hc, if_false, hcv, noCache]
@@ -189,7 +189,7 @@ theorem C05_expire_read_reestablishes (cfg : Cfg) (s : State) (h : Hnd) (o : Ins
   refine ⟨_, rfl, ⟨⟨row, hrow⟩, ?_⟩, rfl, rfl⟩
   intro _ k v row' hr hk
   rw [hrow] at hr; injection hr with hr; subst hr
-  exact cacheAll_loadRow_ok _ _ _ _ _ hk
+  exact cacheAll_loadRow_ok _ _ _ _ _ _ hk
 
 /-! ## non-vacuity and regression witnesses (concrete histories evaluated on the model) -/
 
@@ -202,7 +202,8 @@ def exFk : Cls → Option (Cls × FkKind)
   | _ => none
 
 def exCfg : Cfg :=
-  { lazyUpdate := fun c => c == 1 || c == 4, cacheValues := fun c => c != 2, ncols := fun _ => 2, fk := exFk,
+  { lazyUpdate := fun c => c == 1 || c == 4, cacheValues := fun c => c != 2, ncols := fun _ => 2,
+    enc := fun _ _ v => v, dec := fun _ _ v => v, fk := exFk,
     doCache := true }
 
 /-- the library history of the former defect "reload of an expired lazy object hides its pending value":
